@@ -371,11 +371,12 @@ fn step(t: &[&str]) -> String {
             let r = catch(|| pack_coils(&bits, &mut tgt));
             enc_str(r, &tgt)
         }
-        "unpack" if t.len() == 4 => {
+        "unpack" if t.len() == 4 || t.len() == 5 => {
             let (Some(b), Ok(c), Ok(o)) = (parse_hex(t[1]), t[2].parse::<u16>(), t[3].parse::<usize>()) else {
                 return bad();
             };
-            let mut out = vec![false; o];
+            // optional 5th token `T`: the destination previously held `true` everywhere
+            let mut out = vec![t.len() == 5 && t[4] == "T"; o];
             match catch(|| unpack_coils(&b, c, &mut out)) {
                 Some(Ok(())) => format!("OK {}", bits_str(&out)),
                 Some(Err(_)) => "ERR".into(),
@@ -401,14 +402,41 @@ fn step(t: &[&str]) -> String {
                         Some(l) => bits_str(&l),
                         None => "!".into(),
                     };
+                    // iterator adaptors: nth(i) on a fresh iterator, and nth(i) after one item was consumed
+                    let nx: String = idxs
+                        .iter()
+                        .map(|i| match catch(|| c.into_iter().nth(*i)) {
+                            Some(Some(true)) => '1',
+                            Some(Some(false)) => '0',
+                            Some(None) => '-',
+                            None => '!',
+                        })
+                        .collect();
+                    let n1: String = idxs
+                        .iter()
+                        .map(|i| {
+                            match catch(|| {
+                                let mut it = c.into_iter();
+                                it.next();
+                                it.nth(*i)
+                            }) {
+                                Some(Some(true)) => '1',
+                                Some(Some(false)) => '0',
+                                Some(None) => '-',
+                                None => '!',
+                            }
+                        })
+                        .collect();
                     format!(
-                        "OK {} {} {} {} gx={} it={}",
+                        "OK {} {} {} {} gx={} it={} nx={} n1={}",
                         c.len(),
                         c.packed_len(),
                         b01(c.is_empty()),
                         coils_str(&c),
                         gx,
-                        it
+                        it,
+                        nx,
+                        n1
                     )
                 }
                 Some(Err(_)) => "ERR".into(),
@@ -427,7 +455,31 @@ fn step(t: &[&str]) -> String {
                         Some(l) => words_str(&l),
                         None => "!".into(),
                     };
-                    format!("OK {} {} {} gx={} it={}", d.len(), b01(d.is_empty()), data_str(&d), gx, it)
+                    let nx = idxs
+                        .iter()
+                        .map(|i| match catch(|| d.into_iter().nth(*i)) {
+                            Some(Some(w)) => format!("{:04X}", w),
+                            Some(None) => "-".into(),
+                            None => "!".to_string(),
+                        })
+                        .collect::<Vec<_>>()
+                        .join(",");
+                    let n1 = idxs
+                        .iter()
+                        .map(|i| {
+                            match catch(|| {
+                                let mut it = d.into_iter();
+                                it.next();
+                                it.nth(*i)
+                            }) {
+                                Some(Some(w)) => format!("{:04X}", w),
+                                Some(None) => "-".into(),
+                                None => "!".to_string(),
+                            }
+                        })
+                        .collect::<Vec<_>>()
+                        .join(",");
+                    format!("OK {} {} {} gx={} it={} nx={} n1={}", d.len(), b01(d.is_empty()), data_str(&d), gx, it, nx, n1)
                 }
                 Some(Err(_)) => "ERR".into(),
                 None => "PANIC".into(),
